@@ -186,6 +186,8 @@ C09_UpgradeBeforeAuth(cfg, obs) ==
     IN \A m \in (n + 1) .. Len(obs) :
          /\ (IsOutSes(obs[m]) => obs[m].wire = w)
          /\ (obs[m].k = "auth" => obs[m].tenc = obs[n].enc)
+         \* and what is authenticated was received under it
+         /\ (obs[m].k = "auth" => \E c \in (n + 1) .. (m - 1) : IsInSes(obs[c]) /\ obs[c].st = "authenticating" /\ obs[c].wire = w)
          /\ ((obs[m].k = "ret" /\ obs[m].st = "established") => obs[m].tenc = obs[n].enc)
 
 -----------------------------------------------------------------------------
